@@ -17,8 +17,9 @@ def seed():
 
 @implementer(IPushProducer)
 class PushP:
-    def __init__(self, w, side, ci, write_on_resume):
+    def __init__(self, w, side, ci, write_on_resume, unreg_other=None):
         self.w, self.side, self.ci, self.wor = w, side, ci, write_on_resume
+        self.unreg_other = unreg_other      # during its own turn this producer's application unregisters that other producer
         self.calls = []
         self.writes = 0
         self.registered = True
@@ -30,6 +31,11 @@ class PushP:
     def resumeProducing(self):
         self.calls.append("resume")
         self.w.model[self.side]["turns"].append(("push", self.ci))
+        if self.unreg_other is not None:
+            o = self.w.prod[self.side].get(self.unreg_other)
+            if o is not None and o.registered:
+                o.registered = False
+                self.w.sides[self.side].chans[self.unreg_other].transport.unregisterProducer()
         if self.wor and self.writes < 3:
             self.writes += 1
             self.w.sides[self.side].chans[self.ci].transport.write(b"P%d" % self.ci)
@@ -190,7 +196,7 @@ def extra_apply(w, ev):
 def app_hook(w, s, op):
     k = op[0]
     if k == "reg_push":
-        p = PushP(w, s.i, op[1], op[2] if len(op) > 2 else False)
+        p = PushP(w, s.i, op[1], op[2] if len(op) > 2 else False, op[3] if len(op) > 3 else None)
         w.prod[s.i][op[1]] = p
         s.producers.append(p)
         s.chans[op[1]].transport.registerProducer(p, True)
@@ -324,6 +330,9 @@ def scenarios(tier):
                 tcycles=1, arms=0, arms_pr=2, max_depth=80, max_states=600000))
     S.append(mk("push-pull-pause-resume-inside-turn", thr([opens[:2], [("reg_push", 0, True)], [("reg_pull", 1, 2)], [("write", 0, b"w")]]),
                 tcycles=1, arms=1, arms_pr=1, max_depth=80, max_states=600000))
+    # inside its own turn a producer's application unregisters another producer that is still waiting for its turn (or has had it)
+    S.append(mk("push-unregister-other-inside-turn", thr([opens, [("reg_push", 0, True, 1)], [("reg_push", 1, True)], [("reg_push", 2, True, 0)]]),
+                tcycles=2, arms=1, max_depth=80, max_states=600000))
     # inbound: application pause/resume/stop of subchannels, carried over to a replacement connection
     S.append(mk("inbound-pause-resume", thr([opens[:2], [("pause", 0), ("resume", 0)], [("pause", 1), ("stop", 1)]]),
                 tcycles=0, arms=0, max_depth=60, max_states=600000))
